@@ -1,10 +1,10 @@
 //! C13 — view = marginalize > project > mask > normalize, equal to chained single steps.
 
 use crate::{
-    cli::{parse_f64_tokens, parse_text_spectrum, run_sfs, Out, Scratch, Stdin},
+    cli::{parse_f64_tokens, parse_text_spectrum, run_sfs, run_sfs_transport, Out, Scratch, Stdin, Transport},
     enumerate::{indices, permutations, subsets},
     json::J,
-    npyref::strict_parse_header,
+    npyref::{dict_text, strict_parse_header, synth, Spelling},
     par::par_map,
     refmodel::{printed_ok, RefArray},
     subject::{join_usizes, text_of},
@@ -34,7 +34,7 @@ struct Combo {
 }
 
 /// Index of the first large spectrum in `spectra()`; those are run with a reduced option set.
-const FIRST_BIG: usize = 15;
+const FIRST_BIG: usize = 18;
 
 fn spectra() -> &'static Vec<RefArray> {
     static S: std::sync::OnceLock<Vec<RefArray>> = std::sync::OnceLock::new();
@@ -61,6 +61,12 @@ fn build_spectra() -> Vec<RefArray> {
         // monomorphic entries next to which the polymorphic mass vanishes in floating point (2^53 and 3e9 + fractions)
         RefArray { shape: vec![3, 3], data: vec![9007199254740992.0, 3.0, 1.0, 2.0, 5.0, 1.0, 4.0, 2.0, 9007199254740992.0] },
         RefArray { shape: vec![2, 3], data: vec![3e9, 0.125, 0.0625, 0.25, 0.03125, 2e9] },
+        // all mass on cells that are (or become, after marginalizing) monomorphic: masking leaves zeros,
+        // normalizing zeros gives NaN in the combined call and in the chain alike
+        RefArray { shape: vec![3, 3], data: vec![5.0, 0.0, 2.0, 0.0, 0.0, 0.0, 4.0, 0.0, 3.0] },
+        RefArray { shape: vec![2, 3], data: vec![4.0, 0.0, 0.0, 0.0, 0.0, 6.0] },
+        // values whose binary form contains line-feed bytes (0x0a), for the npy hops of the chain
+        RefArray { shape: vec![2, 2], data: vec![2053.0, 3.25, 212992.0, 2181.0] },
         // more than 4096 entries (buffer / block boundaries of the writers)
         RefArray::from_fn(&[4100], |f, _| (f % 97) as f64 + 0.5),
         RefArray::from_fn(&[65, 65], |f, _| ((f * 7) % 101) as f64 + 1.0),
@@ -305,6 +311,57 @@ fn eval(c: &Combo, scratch: &Scratch) -> Vec<Viol> {
     v
 }
 
+/// One option combination with the input in a given format over a given transport and the output
+/// on stdout or in a file given with `-o`: the result must equal the reference whatever the route.
+fn eval_io(c: &Combo, npy_in: bool, transport: usize, sink_file: bool, scratch: &Scratch) -> Option<Viol> {
+    let x = &spectra()[c.spectrum];
+    let (bytes, suffix) = if npy_in {
+        let data: Vec<u8> = x.data.iter().flat_map(|v| v.to_le_bytes()).collect();
+        (synth(1, &dict_text("<f8", false, &x.shape, &Spelling::numpy()), &data), ".npy")
+    } else {
+        (text_of(x).into_bytes(), ".sfs")
+    };
+    let mut a = combined_args(c);
+    let out_path = scratch.path(if c.output == 2 { ".out.npy" } else { ".out.sfs" });
+    if sink_file {
+        a.push("-o".into());
+        a.push(out_path.to_str().unwrap().to_string());
+    }
+    let av: Vec<&str> = a.iter().map(|s| s.as_str()).collect();
+    let tr = Transport::ALL[transport];
+    let mut o = run_sfs_transport(&av, &bytes, tr, suffix, scratch);
+    if sink_file {
+        if o.ok() && !o.stdout.is_empty() {
+            let _ = std::fs::remove_file(&out_path);
+            return Some(("C13|cli|io-route|stdout-not-empty-with--o".into(), format!("{a:?} (input {} over {tr:?}) wrote {} bytes to stdout although -o was given", if npy_in { "npy" } else { "text" }, o.stdout.len()), io_j(c, npy_in, transport, sink_file)));
+        }
+        o.stdout = std::fs::read(&out_path).unwrap_or_default();
+        let _ = std::fs::remove_file(&out_path);
+    }
+    let expect = reference(c);
+    let verdict = match parse_output(&o, c.output) {
+        Ok(got) if close_to_ref(&got, &expect, c.output) => return None,
+        Ok(got) => format!("got {:?} {:?}, reference {:?} {:?}", got.shape, got.data, expect.shape, expect.data),
+        Err(e) => e,
+    };
+    Some((
+        format!("C13|cli|io-route|{}|{}", option_class(c), if sink_file { "-o" } else { "stdout" }),
+        format!("{a:?} on spectrum {:?} given as {} over {tr:?}, output to {}: {verdict}", x.shape, if npy_in { "npy" } else { "text" }, if sink_file { "a file" } else { "stdout" }),
+        io_j(c, npy_in, transport, sink_file),
+    ))
+}
+
+fn io_j(c: &Combo, npy_in: bool, transport: usize, sink_file: bool) -> J {
+    let mut j = combo_j(c);
+    if let J::Obj(o) = &mut j {
+        o[0].1 = J::s("c13-io");
+        o.push(("npy_in".into(), J::Bool(npy_in)));
+        o.push(("transport".into(), J::u(transport)));
+        o.push(("sink_file".into(), J::Bool(sink_file)));
+    }
+    j
+}
+
 fn combos(tier: Tier) -> Vec<Combo> {
     let sp = spectra();
     assert!(sp.len() == FIRST_BIG + 3 && sp[FIRST_BIG].data.len() > 4096);
@@ -463,6 +520,52 @@ pub fn run(tier: Tier) -> i32 {
             extra: vec![],
         });
     }
+    // every option subset x input format x transport x output format x sink: the route the bytes take
+    // must not matter to what is computed
+    {
+        let mut ij: Vec<(Combo, bool, usize, bool)> = Vec::new();
+        for (si, marg, proj) in [(1usize, Marg::Remove(vec![0]), vec![3usize]), (2, Marg::Keep(vec![2, 0]), vec![2usize, 3]), (0, Marg::None, vec![4usize])] {
+            for bits in 0..16usize {
+                let with_marg = bits & 1 != 0 && marg != Marg::None;
+                if bits & 1 != 0 && marg == Marg::None {
+                    continue;
+                }
+                let x = &spectra()[si];
+                let project = if bits & 2 != 0 {
+                    // the target follows the axes that remain after marginalization
+                    if with_marg { Some(proj.clone()) } else { Some(x.shape.iter().map(|n| n - 1).collect()) }
+                } else {
+                    None
+                };
+                for output in [0usize, 2] {
+                    let c = Combo { spectrum: si, marg: if with_marg { marg.clone() } else { Marg::None }, project: project.clone(), individuals: false, mask: bits & 4 != 0, normalize: bits & 8 != 0, output };
+                    for npy_in in [false, true] {
+                        for t in 0..Transport::ALL.len() {
+                            for sink_file in [false, true] {
+                                if !tier.thorough() && sink_file && t % 2 == 1 {
+                                    continue;
+                                }
+                                ij.push((c.clone(), npy_in, t, sink_file));
+                            }
+                        }
+                    }
+                }
+            }
+        }
+        let res = par_map(ij.len(), |i| eval_io(&ij[i].0, ij[i].1, ij[i].2, ij[i].3, &scratch));
+        for v in res.into_iter().flatten() {
+            rep.violation(v.0, v.1, v.2);
+        }
+        rep.transitions += ij.len() as u64;
+        rep.part(Part {
+            name: "cli: option subsets x input format x transport x output x sink".into(),
+            evaluations: ij.len() as u64,
+            nontrivial: ij.len() as u64,
+            note: "three spectra (1, 2 and 3 axes) x every subset of {marginalize, project, mask, normalize} x input as text / npy x {stdin file, stdin pipe, path, FIFO, /dev/stdin} x output text / npy x {stdout, -o file}: every result against the reference semantics".into(),
+            exhaustive: true,
+            extra: vec![],
+        });
+    }
     // library layer: explicit-state search over operation sequences on the live objects
     let inits: Vec<RefArray> = vec![
         RefArray::from_fn(&[2, 3, 2], |f, _| (f * 7 % 11 + 1) as f64),
@@ -558,5 +661,11 @@ pub fn replay(case: &J) -> Option<Vec<String>> {
         output: case.get("output")?.as_i64()? as usize,
     };
     let scratch = Scratch::new("c13r");
+    if case.get("kind").and_then(|k| k.as_str()) == Some("c13-io") {
+        let npy_in = matches!(case.get("npy_in"), Some(J::Bool(true)));
+        let sink_file = matches!(case.get("sink_file"), Some(J::Bool(true)));
+        let transport = case.get("transport")?.as_i64()? as usize;
+        return Some(eval_io(&c, npy_in, transport, sink_file, &scratch).into_iter().map(|(k, w, _)| format!("{k} :: {w}")).collect());
+    }
     Some(eval(&c, &scratch).into_iter().map(|(k, w, _)| format!("{k} :: {w}")).collect())
 }
